@@ -37,9 +37,11 @@ Definition c05_prop_ok (c : c05case) : bool :=
   match c with
   | CUser cfg ids tss probes b a =>
       if same_cfg cfg then uobs_eqb a b                           (* exactly what was saved *)
-      else (* a smaller buffer keeps what fits, in order, and never more than its capacity *)
+      else (* a smaller buffer keeps what fits, in order, and never more than its capacity; the arrival counts are
+              those of the saved window, cut to the new timestamp queue's size *)
         Nat.leb (o_len a) (u_cap2 cfg) && Nat.eqb (o_len a) (length (o_items a)) &&
-        zl_eqb (o_items a) (loaded_items cfg (o_items b))
+        zl_eqb (o_items a) (loaded_items cfg (o_items b)) &&
+        nl_eqb (o_counts a) (map (fun c => match u_q2 cfg with Some q => Nat.min q c | None => c end) (o_counts b))
   | CWhole pairs cs cl later expect => pairs_equal pairs && Qeq_bool cs cl && Qeq_bool later expect
   | CRelaunch pairs ce cs => pairs_equal pairs && Qeq_bool ce cs
   end.
